@@ -370,6 +370,17 @@ pub fn all() -> Vec<CheckDef> {
         CheckDef { id: "C24", level: "exploration", quick_s: 40, thorough_s: 600, gen: |s, _t| gen::gen_tickets(s, true), run: run_history, rule: RULE_TK, assumptions: &["capacity is compared with the end offset of frame payloads as reported by the public Frame fields"], want_probes: &["capacity_checks", "tickets_accepted", "rejected_calls_monitored"] },
         CheckDef { id: "C25", level: "exploration", quick_s: 40, thorough_s: 600, gen: |s, _t| gen::gen_tickets(s, false), run: run_history, rule: RULE_TK, assumptions: &["acceptance of an authentic signed ticket cannot be exercised (no private key); forged signatures, wrong memory ids and unbound memories are"], want_probes: &["tickets_accepted", "stale_tickets_rejected", "forged_tickets_rejected", "rejected_calls_monitored"] },
         CheckDef { id: "C17", level: "exploration", quick_s: 40, thorough_s: 600, gen: |s, t| gen::gen_two_writers(s, if t == Tier::Quick { 20 } else { 40 }), run: run_history, rule: RULE_LOCK, assumptions: &["a second process is simulated by an independent open file description in the same process: flock conflicts between open file descriptions exactly as between processes; process-local state would not, and memvid-core keeps none on this path", "steps of the two actors interleave at API-call granularity", "the lock's retry loop (200 x 50 ms) runs on the virtual clock"], want_probes: &["second_open_refused", "flock_probes", "refused_after_commit", "refused_before_first_commit"] },
+        CheckDef {
+            id: "C23",
+            level: "exploration",
+            quick_s: 45,
+            thorough_s: 600,
+            gen: |s, t| gen::gen_history(s, if t == Tier::Quick { 14 } else { 30 }, false, true),
+            run: crate::determinism::run_determinism,
+            rule: "a seeded history with explicit timestamps (puts of all payload classes, updates, deletes, commits, vacuum, doctor, clean restarts) is executed four times, each in a fresh process on a fresh path: base environment; different clock (origin, skew, jumps); different entropy (segment UUIDs, staging-file names, hash seeds); different path plus injected short writes/short reads/EINTR; call outcomes, the logical observation (frames, contents, metadata, timeline, searches, vector search, stats) and the file bytes of each variant are compared with the base run; a run is non-trivial iff >=1 mutation was acknowledged and >=1 variant was compared; distinct = (op-kind buckets, probes) classes",
+            assumptions: &["Tantivy's worker threads are real threads that the simulator does not schedule; their entropy is keyed by thread lineage", "differences are classified by the file region they fall in (header fields, WAL ring, payloads, index region, TOC, footer)"],
+            want_probes: &["compared_clock", "compared_entropy", "compared_path_short_io"],
+        },
         hist("C42", gen_vacuum, &["vacuum", "deletes", "updates"]),
         medium("C20", &["medium_images", "medium_open_accepted", "medium_open_rejected", "fault_in_payload", "fault_in_toc", "fault_in_footer", "fault_in_wal", "fault_in_indexes"]),
         medium("C21", &["medium_images", "medium_doctor_ran"]),
